@@ -34,6 +34,12 @@ M = {
     "M23-cancel-keeps-flag-false": (EV, "        event.cancel()", "        event.fn = None"),
     "M24-abm-run-until-own-loop-no-resched": (SIM, "    def _execute_event(self, event: SimulationEvent) -> None:\n        \"\"\"Advance the clock to the time of the event and execute it.\n", "    def _execute_event_unused(self, event: SimulationEvent) -> None:\n        \"\"\"Advance the clock to the time of the event and execute it.\n"),
     "M25-next-tick-delta-2": (SIM, "            function,\n            1,\n", "            function,\n            2,\n"),
+    "M30-unit-check-after-add": (SIM, "        if not self.check_time_unit(event.time):\n            raise ValueError(\n                f\"time unit mismatch {event.time} is not of time unit {self.time_unit}\"\n            )\n\n        # check timeunit of events\n        self.event_list.add_event(event)",
+                                 "        self.event_list.add_event(event)\n        if not self.check_time_unit(event.time):\n            raise ValueError(\n                f\"time unit mismatch {event.time} is not of time unit {self.time_unit}\"\n            )"),
+    "M27-step-identity-comparison": (SIM, "        if event.fn() == self.model.step:", "        if event.fn() is self.model.step:"),
+    "M28-clock-set-after-reschedule": (SIM, "        self.time = event.time\n        if event.fn() == self.model.step:\n            self.schedule_event_next_tick(self.model.step, priority=Priority.HIGH)\n",
+                                       "        if event.fn() == self.model.step:\n            self.schedule_event_next_tick(self.model.step, priority=Priority.HIGH)\n        self.time = event.time\n"),
+    "M29-run-next-skips-clock": (SIM, "        else:\n            self._execute_event(event)\n", "        else:\n            event.execute()\n"),
     "M26-run-for-from-start": (SIM, "end_time = self.time + time_delta", "end_time = self.start_time + time_delta if self.time == self.start_time else self.time + time_delta + 0"),
 }
 
@@ -71,4 +77,8 @@ for name in sys.argv[1:]:
         res.append(f"{pid}: exit={r.returncode} " + ("CAUGHT " + " | ".join(keys) if viol else "MISSED"))
     print("\n   ".join(res), flush=True)
 restore()
-sh("cd /tmp/vw/g14/harness && /venv/bin/python translate.py > /dev/null")
+# leave coq/Generated/Tables.v as the repaired tree gives it (rewritten only when the text differs)
+r = sh("cd /tmp/vw/g14/harness && VERIF_REPO=/tmp/rw/g14 /venv/bin/python translate.py")
+tp = os.path.join(VW, "coq/Generated/Tables.v")
+if open(tp).read() != r.stdout:
+    open(tp, "w").write(r.stdout)
